@@ -129,13 +129,18 @@ JDecode(ty, in, dest, obs) ==
   LET r == Dec(ty, in, dest) IN
   [ cls |-> "Decode/" \o r.st \o
             (IF r.st = "ok" /\ r.dup THEN "+dup" ELSE "") \o
+            (IF r.st = "ok" /\ r.q THEN "+dubious" ELSE "") \o
             (IF r.st = "ok" /\ r.d > AlwaysAcceptedDepth THEN "+deep" ELSE "") \o
             (IF r.st = "ok" /\ r.n < Len(in) THEN "+trail" ELSE "") \o ">" \o obs.out,
     fail |->
       If(obs.inpre = obs.inpost, "in_unchanged") \cup
       If(obs.alloc <= AllocBound(Len(in)), "dec_alloc") \cup
       If(obs.us <= 2000000, "dec_time") \cup
-      ( IF r.st = "ok" THEN
+      ( IF r.st = "ok" /\ r.q THEN
+             \* an empty container with an illegal element type code inside a skipped field:
+             \* acceptance (with the reference value) and an error are both allowed
+             IF obs.out = "ok" THEN If(obs.n = r.n /\ (r.dup \/ SameStruct(ty, obs.val, r.v)), "dec_val") ELSE {}
+        ELSE IF r.st = "ok" THEN
              IF r.d <= AlwaysAcceptedDepth THEN
                   IF obs.out # "ok" THEN {"dec_accept"}
                   ELSE If(obs.n = r.n, "dec_n") \cup
